@@ -320,7 +320,7 @@ class Interp:
             return self._construct(f, args, kwargs, node)
         if callable(f):
             def wrap(x):
-                if isinstance(x, (Closure, BoundMethod, FuncInfo, ClassRef)):
+                if isinstance(x, (Closure, BoundMethod, FuncInfo)):
                     return lambda *a, **k: self.call_value(x, list(a), k, node)
                 return x
             args = [wrap(a) for a in args]
